@@ -172,14 +172,23 @@ func concNilCmp(op token.Token, a, b *Term, t types.Type) *Term {
 	}
 	var other *Term
 	switch {
-	case isNilConst(a) && b.CV != nil:
+	case isNilConst(a):
 		other = b
-	case isNilConst(b) && a.CV != nil:
+	case isNilConst(b):
 		other = a
 	default:
 		return nil
 	}
 	var isNil bool
+	if other.CV == nil {
+		// a concrete value boxed into an interface is a non-nil interface value
+		// (language semantics), whichever frame boxed it
+		if _, boxed := other.V.(*ssa.MakeInterface); boxed && other.K == TLeaf {
+			r := op == token.NEQ
+			return &Term{K: TBoolConst, Bool: r, T: t, key: fmt.Sprintf("%v", r)}
+		}
+		return nil
+	}
 	switch other.CV.k {
 	case cvNil:
 		isNil = true
